@@ -282,6 +282,8 @@ pub struct Inner {
     pub root_stage: String,
     pub phase: usize,
     pub final_stage: bool,
+    /// logical time at which the final stage began (0 = not yet)
+    pub final_stage_clock: u64,
     /// the case injects a panic: callers may stay blocked forever on the panicked object and keep handles alive
     pub panic_case: bool,
     /// logical time of the injected panic (0 = none yet)
